@@ -97,12 +97,17 @@ class GrammarNet(nn.Module):
                         # explicit NON-causal padding (README: un-padded conv + nn.ConstantPad1d): span split evenly
                         if ((k - 1) * d) % 2 or s != 1:
                             raise ValueError("symmetric explicit padding needs an even span and stride 1")
-                        self.layers[lname(idx) + "_pad"] = nn.ConstantPad1d(((k - 1) * d // 2, (k - 1) * d // 2), 0.0)
-                        names.append(lname(idx) + "_pad")
+                        self.layers[lname(idx) + "_xpad"] = nn.ConstantPad1d(((k - 1) * d // 2, (k - 1) * d // 2), 0.0)
+                        names.append(lname(idx) + "_xpad")
                         conv = nn.Conv1d(cin, cout, k, stride=1, padding=0, dilation=d, groups=groups, bias=n["bias"])
                     elif n["causal"]:
-                        self.layers[lname(idx) + "_pad"] = nn.ConstantPad1d(((k - 1) * d, 0), 0.0)
-                        names.append(lname(idx) + "_pad")
+                        # the causal zero pad is an nn.ConstantPad1d or (every third layer, by position and kernel) its
+                        # subclass nn.ZeroPad1d: the same layout, spelled the other legal way
+                        if (idx + k) % 3 == 0 and hasattr(nn, "ZeroPad1d"):
+                            self.layers[lname(idx) + "_xpad"] = nn.ZeroPad1d(((k - 1) * d, 0))
+                        else:
+                            self.layers[lname(idx) + "_xpad"] = nn.ConstantPad1d(((k - 1) * d, 0), 0.0)
+                        names.append(lname(idx) + "_xpad")
                         conv = nn.Conv1d(cin, cout, k, stride=s, padding=0, dilation=d, groups=groups, bias=n["bias"])
                     else:
                         if s != 1:
